@@ -496,4 +496,195 @@ theorem newNode_of_inv {c : Core} (hi : Inv c) :
   · rw [applyAllCore_append, g.st, s0.blocks]
   · rw [applyAllCore_append]; exact g.stRec
 
+/-! ### a running node -/
+
+/-- one whole height from a synced world: every intermediate world satisfies the invariant and
+the height ends synced, one higher -/
+theorem height_along (d : Disk) (txs : List Tx) (k : Nat) (hi : Inv d.toCore)
+    (hs : Synced d.toCore) (hr : d.stRec = true) :
+    AllAlong Inv d.toCore (heightEvs d txs k) ∧
+    Synced (applyAllCore d.toCore (heightEvs d txs k)) ∧
+    (applyAllCore d.toCore (heightEvs d txs k)).stRec = true := by
+  obtain ⟨j1, j2, j3, j4⟩ := bsJ_step hi hs hr txs
+  obtain ⟨b1, b2, _, _, b5⟩ := real_apply_along j1 j2 j4 j3 d.ver
+  have hf := heightEvs_filter d txs k
+  refine ⟨AllAlong.of_filter (by rw [hf]; exact ⟨hi, b1⟩), ?_, ?_⟩
+  · rw [applyAllCore_filter, hf]; exact b2
+  · rw [applyAllCore_filter, hf]; exact b5
+
+theorem heights_along {d : Disk} {run : List Ev} (h : Heights d run) (hi : Inv d.toCore)
+    (hs : Synced d.toCore) (hr : d.stRec = true) :
+    AllAlong Inv d.toCore run ∧ Synced (applyAllCore d.toCore run) := by
+  induction h with
+  | done d => exact ⟨hi, hs⟩
+  | height d txs k rest _ ih =>
+    obtain ⟨a, s, r⟩ := height_along d txs k hi hs hr
+    have ih' := ih (by rw [applyAll_toCore]; exact a.end_) (by rw [applyAll_toCore]; exact s)
+      (by show (applyAll d (heightEvs d txs k)).toCore.stRec = true; rw [applyAll_toCore]; exact r)
+    rw [applyAll_toCore] at ih'
+    exact ⟨a.append ih'.1, by rw [applyAllCore_append]; exact ih'.2⟩
+
+theorem inert_wE (n : Nat) : Inert (.wE n) := fun _ => rfl
+
+theorem walOpen_inert (d : Disk) : ∀ e ∈ walOpenEvs d, Inert e := by
+  intro e he
+  unfold walOpenEvs at he
+  split at he
+  · simp at he; subst he; exact inert_wE 0
+  · simp at he
+
+/-- every trace of a process started on a world satisfying the invariant keeps it at every step -/
+theorem proc_along {d : Disk} {evs : List Ev} (hi : Inv d.toCore) (hp : Proc d evs) :
+    Inv (applyAll d evs).toCore := by
+  rw [applyAll_toCore]
+  obtain ⟨hs, hn, g⟩ := newNode_of_inv hi
+  cases hp with
+  | handshake hsEvs c1 pre h1 h2 =>
+    rw [hn] at h1; cases h1
+    exact g.along.prefix h2
+  | running hsEvs c1 run pre h1 _ h3 h4 =>
+    rw [hn] at h1; cases h1
+    have hd1 : (applyAll d hs).toCore = applyAllCore d.toCore hs := applyAll_toCore d hs
+    have hw := walOpen_inert (applyAll d hs)
+    have hopen : (applyAll (applyAll d hs) (walOpenEvs (applyAll d hs))).toCore = applyAllCore d.toCore hs := by
+      rw [applyAll_toCore, applyAllCore_inert hw, hd1]
+    obtain ⟨a, _⟩ := heights_along h3 (by rw [hopen]; exact g.along.end_) (by rw [hopen]; exact g.synced)
+      (by show (applyAll (applyAll d hs) (walOpenEvs (applyAll d hs))).toCore.stRec = true; rw [hopen]; exact g.stRec)
+    rw [hopen] at a
+    have hall : AllAlong Inv d.toCore (hs ++ walOpenEvs (applyAll d hs) ++ run) := by
+      refine (g.along.append ?_).append ?_
+      · exact AllAlong.inert g.along.end_ hw
+      · rw [applyAllCore_append, applyAllCore_inert hw]; exact a
+    exact hall.prefix h4
+  | stalled hsEvs c1 pre h1 _ h3 =>
+    rw [hn] at h1; cases h1
+    have hw := walOpen_inert (applyAll d hs)
+    exact (g.along.append (AllAlong.inert g.along.end_ hw)).prefix h3
+
+theorem inv_empty : Inv Core.empty :=
+  ⟨fun i h => by simp [Core.empty] at h, rfl, Or.inl ⟨rfl, rfl, rfl⟩, fun _ => ⟨rfl, rfl, rfl, rfl, rfl⟩⟩
+
+/-- the invariant of every durable world reachable by kills and restarts -/
+theorem reach_inv {d : Disk} (h : Reach d) : Inv d.toCore := by
+  induction h with
+  | genesis => exact inv_empty
+  | kill d evs _ hp ih => exact proc_along ih hp
+
+/-! ### blocks only grow, the sign state only rises -/
+
+theorem blocks_mono (c : Core) (l : List Ev) : c.blocks <+: (applyAllCore c l).blocks := by
+  induction l generalizing c with
+  | nil => exact List.prefix_refl _
+  | cons e l ih =>
+    rw [applyAllCore_cons]
+    refine List.IsPrefix.trans ?_ (ih _)
+    cases e <;> first | exact List.prefix_refl _ | exact List.prefix_append _ _
+
+theorem HRS.le_refl (a : HRS) : a.le a = true := by simp [HRS.le]
+
+theorem HRS.le_trans {a b c : HRS} (h1 : a.le b = true) (h2 : b.le c = true) : a.le c = true := by
+  simp only [HRS.le, Bool.or_eq_true, Bool.and_eq_true, decide_eq_true_eq, beq_iff_eq] at *
+  omega
+
+theorem HRS.le_max (a b : HRS) : a.le (a.max b) = true := by
+  unfold HRS.max; split
+  · assumption
+  · exact HRS.le_refl a
+
+theorem pv_mono (d : Disk) (l : List Ev) : d.pv.le (applyAll d l).pv = true := by
+  induction l generalizing d with
+  | nil => exact HRS.le_refl _
+  | cons e l ih =>
+    rw [applyAll_cons]
+    refine HRS.le_trans ?_ (ih _)
+    cases e <;> first | exact HRS.le_refl _ | exact HRS.le_max _ _
+
+/-! ### the handshake writes to the databases only -/
+
+def isDb : Ev → Bool
+  | .stG | .stR _ | .stT | .stP | .stV | .stS _ _ _ | .apC | .apK | .apS _ _ => true
+  | _ => false
+
+theorem apply_db_log {d : Disk} {e : Ev} (h : isDb e = true) :
+    (apply d e).wal = d.wal ∧ (apply d e).pv = d.pv := by
+  cases e <;> first | exact ⟨rfl, rfl⟩ | simp [isDb] at h
+
+theorem applyAll_db_log {d : Disk} {l : List Ev} (h : ∀ e ∈ l, isDb e = true) :
+    (applyAll d l).wal = d.wal ∧ (applyAll d l).pv = d.pv := by
+  induction l generalizing d with
+  | nil => exact ⟨rfl, rfl⟩
+  | cons e l ih =>
+    rw [applyAll_cons]
+    obtain ⟨a, b⟩ := ih (d := apply d e) (fun e' he' => h e' (by simp [he']))
+    obtain ⟨a', b'⟩ := apply_db_log (d := d) (h e (by simp))
+    exact ⟨a.trans a', b.trans b'⟩
+
+theorem saveState_db {e : Ev} {s h : Nat} {v : Bool} (he : e ∈ saveStateEvs s h v) : isDb e = true := by
+  rcases mem_saveStateEvs he with rfl | rfl | rfl <;> rfl
+
+theorem prelude_db (c : Core) : ∀ e ∈ preludeEvs c, isDb e = true := by
+  intro e he
+  simp only [preludeEvs, List.mem_append] at he
+  rcases he with (he | he) | he <;> split at he
+  all_goals first
+    | (simp at he; done)
+    | exact saveState_db he
+    | (simp at he; subst he; rfl)
+
+theorem initChain_db (c : Core) : ∀ e ∈ initChainEvs c, isDb e = true := by
+  intro e he
+  unfold initChainEvs at he
+  split at he
+  · simp only [List.mem_append, List.mem_cons, List.not_mem_nil, or_false] at he
+    rcases he with rfl | he
+    · rfl
+    · split at he
+      · exact saveState_db he
+      · simp at he
+  · simp at he
+
+theorem applyEvs_db (h : Nat) (b : Block) (cur : Nat) (v : Bool) : ∀ e ∈ applyEvs h b cur v, isDb e = true := by
+  intro e he
+  simp only [applyEvs, List.mem_append, List.mem_cons, List.mem_replicate, List.not_mem_nil, or_false] at he
+  rcases he with (((rfl | ⟨_, rfl⟩) | rfl) | ⟨_, rfl⟩) | (rfl | rfl | rfl | rfl) <;> rfl
+
+theorem mockApplyEvs_db (h : Nat) (b : Block) (cur : Nat) (v : Bool) : ∀ e ∈ mockApplyEvs h b cur v, isDb e = true := by
+  intro e he
+  simp only [mockApplyEvs, List.mem_append, List.mem_cons, List.mem_replicate, List.not_mem_nil, or_false] at he
+  rcases he with (rfl | ⟨_, rfl⟩) | (rfl | rfl | rfl) <;> rfl
+
+theorem replayBlocks_db {c : Core} (hi : Inv c) {evs : List Ev} (h : replayBlocksEvs c = .ok evs) :
+    ∀ e ∈ evs, isDb e = true := by
+  rcases hi.shape with hs | hs | hs
+  · rw [replayBlocksEvs_synced hs] at h; cases h; exact initChain_db c
+  · obtain ⟨b, hb, hbh⟩ := last_block hi hs.1
+    rw [replayBlocksEvs_saved hs hb hbh] at h; cases h
+    intro e he
+    rcases List.mem_append.mp he with he | he
+    · exact initChain_db c e he
+    · exact applyEvs_db _ _ _ _ e he
+  · obtain ⟨b, hb, hbh⟩ := last_block hi hs.1
+    rw [replayBlocksEvs_committed hs hb hbh] at h; cases h
+    intro e he
+    rcases List.mem_append.mp he with he | he
+    · exact initChain_db c e he
+    · exact mockApplyEvs_db _ _ _ _ e he
+
+theorem newNode_db {c : Core} (hi : Inv c) {evs : List Ev} {c' : Core} (h : newNode c = .ok (evs, c')) :
+    ∀ e ∈ evs, isDb e = true := by
+  obtain ⟨a0, _⟩ := harmless_along hi (prelude_harmless hi)
+  have hi0 : Inv (applyAllCore c (preludeEvs c)) := a0.end_
+  unfold newNode handshakeEvs at h
+  cases hr : replayBlocksEvs (applyAllCore c (preludeEvs c)) with
+  | error e => simp [hr] at h
+  | ok evs' =>
+    simp only [hr] at h
+    split at h
+    · cases h
+    · cases h
+      intro e he
+      rcases List.mem_append.mp he with he | he
+      · exact prelude_db c e he
+      · exact replayBlocks_db hi0 hr e he
+
 end GnoVerif.C33
